@@ -115,3 +115,8 @@
 (declare-fun eidx ((_ BitVec 64)) (_ BitVec 64))
 ; length of the decimal / float text strconv produces for a value: between 1 and 32 bytes, otherwise uninterpreted
 (declare-fun numlen ((_ BitVec 64) (_ BitVec 64)) (_ BitVec 64))
+
+; directiface(t): interface values whose dynamic type is the one reflect.TypeOf describes by the *rtype t hold the value itself in their data
+; word (pointer-shaped types: pointers, maps, channels, functions, and structs / arrays of exactly one such
+; element), instead of a pointer to a copy of the value. Uninterpreted: a fact about Go's representation.
+(declare-fun directiface ((_ BitVec 64)) Bool)
